@@ -17,7 +17,11 @@ use std::pin::Pin;
 use std::task::{Context, Poll};
 use tarpc::transport::channel;
 
-const LEN: usize = 7;
+/// quick tier: the first bound; thorough tier (VERIF_TIER=thorough, set by vx/native_run.py): the second
+fn bound(quick: usize, thorough: usize) -> usize {
+    if std::env::var("VERIF_TIER").as_deref() == Ok("thorough") { thorough } else { quick }
+}
+
 
 #[derive(Clone, Copy, Debug, PartialEq)]
 enum Ev {
@@ -100,7 +104,8 @@ fn run(kind: &str, mut ends: [Option<Box<dyn End>>; 2], script: &[Ev]) -> Result
 fn in_memory_transports_scripts() {
     let mut evaluations = 0u64;
     let mut failures: Vec<String> = vec![];
-    'search: for len in 1..=LEN {
+    let max_len = bound(7, 8);
+    'search: for len in 1..=max_len {
         let mut idx = vec![0usize; len];
         loop {
             let script: Vec<Ev> = idx.iter().map(|&i| ALPHABET[i]).collect();
@@ -149,6 +154,6 @@ fn in_memory_transports_scripts() {
     for f in &failures {
         println!("VERIF-FAIL C15 {f}");
     }
-    println!("VERIF-BOUNDED in_memory_transports evaluations={evaluations} bound=scripts <= {LEN} over {{write, read, drop}} x 2 ends, unbounded | bounded(1) | bounded(2)");
+    println!("VERIF-BOUNDED in_memory_transports evaluations={evaluations} bound=scripts <= {max_len} over {{write, read, drop}} x 2 ends, unbounded | bounded(1) | bounded(2)");
     assert!(failures.is_empty(), "{}", failures[0]);
 }
